@@ -117,6 +117,42 @@ fn gen(a: &Args) {
             }
         }
     });
+    // (2c) long inputs: the validators may treat whole words and their tail differently — every fragment after
+    // ASCII runs of every length around the 8- and 16-byte marks, followed by nothing or by more ASCII
+    writeln!(w, "case long-inputs").unwrap();
+    let frags: [&[u8]; 16] = [
+        b"", b"\xc3\xa9", b"\xe2\x82\xac", b"\xf0\x9f\x98\x80", b"\xff", b"\x80", b"\xc2", b"\xe2\x82", b"\xf0\x9f\x98", b"\xc0\x80",
+        b"\xed\xa0\x80", b"\xf4\x90\x80\x80", b"\xe0\x80\x80", b"\xc3", b"\xf8", b"\xbf",
+    ];
+    for pre in [0usize, 1, 6, 7, 8, 9, 10, 15, 16, 17, 23, 24, 25, 31, 32, 33, 40] {
+        for fr in frags.iter() {
+            for post in [0usize, 1, 7, 8] {
+                let mut v = vec![b'a'; pre];
+                v.extend_from_slice(fr);
+                v.extend(std::iter::repeat(b'z').take(post));
+                writeln!(w, "valid {}", hex(&v)).unwrap();
+            }
+        }
+    }
+    // (2d) Display with width / precision / fill / alignment agrees with str
+    let mut n = 0;
+    for s in ["", "a", "ab", "aéb", "€uro", "😀", "a😀é€b", "abcdefgh"] {
+        n += 1;
+        writeln!(w, "case display-{n}").unwrap();
+        writeln!(w, "fromstr {}", hex(s.as_bytes())).unwrap();
+        for al in ["d", "l", "r", "c"] {
+            for fl in ["s", "x"] {
+                for wd in ["-", "0", "1", "3", "6", "9"] {
+                    for pr in ["-", "0", "1", "2", "4", "7"] {
+                        writeln!(w, "fmt 0 {al} {fl} {wd} {pr}").unwrap();
+                    }
+                }
+            }
+        }
+    }
+    writeln!(w, "fmt 0 q s - -").unwrap();
+    writeln!(w, "fmt 0 l s 65 -").unwrap();
+    writeln!(w, "fmt 0 l s +1 -").unwrap();
     // (3) random histories of the whole safe API
     let mut rng = Rng::new(a.seed);
     let cases = if thorough { 20000 } else { 2000 };
@@ -193,6 +229,30 @@ fn construct_all(bs: &[u8], rep: &mut Report) -> Option<ByteString> {
         }
     }
     r0
+}
+
+/// `format!` with the given alignment (`l r c` or `d` = none), fill (`s` = space, `x` = `*`), width and precision
+fn fmt_with<T: std::fmt::Display>(v: &T, al: &str, fl: &str, w: Option<usize>, p: Option<usize>) -> Option<String> {
+    macro_rules! f {
+        ($n:literal, $w:literal, $p:literal, $wp:literal) => {
+            Some(match (w, p) {
+                (None, None) => format!($n, v),
+                (Some(w), None) => format!($w, v, w = w),
+                (None, Some(p)) => format!($p, v, p = p),
+                (Some(w), Some(p)) => format!($wp, v, w = w, p = p),
+            })
+        };
+    }
+    match (al, fl) {
+        ("d", "s") => f!("{}", "{:w$}", "{:.p$}", "{:w$.p$}"),
+        ("l", "s") => f!("{:<}", "{:<w$}", "{:<.p$}", "{:<w$.p$}"),
+        ("r", "s") => f!("{:>}", "{:>w$}", "{:>.p$}", "{:>w$.p$}"),
+        ("c", "s") => f!("{:^}", "{:^w$}", "{:^.p$}", "{:^w$.p$}"),
+        ("l", "x") => f!("{:*<}", "{:*<w$}", "{:*<.p$}", "{:*<w$.p$}"),
+        ("r", "x") => f!("{:*>}", "{:*>w$}", "{:*>.p$}", "{:*>w$.p$}"),
+        ("c", "x") => f!("{:*^}", "{:*^w$}", "{:*^.p$}", "{:*^w$.p$}"),
+        _ => None,
+    }
 }
 
 fn check_valid(b: &ByteString, rep: &mut Report, what: &str) {
@@ -343,6 +403,33 @@ fn run(a: &Args) {
                 }
                 _ => "bad-op".into(),
             },
+            ["fmt", k, al, fl, w, p] => {
+                let num = |x: &str| -> Option<Option<usize>> {
+                    if x == "-" {
+                        Some(None)
+                    } else if x.bytes().all(|b| b.is_ascii_digit()) && !x.is_empty() {
+                        x.parse::<usize>().ok().filter(|v| *v <= 64).map(Some)
+                    } else {
+                        None
+                    }
+                };
+                match (k.parse::<usize>(), num(w), num(p)) {
+                    (Ok(k), Some(w), Some(p)) if k < st.len() => {
+                        let b = st[k].clone();
+                        let s: String = b.to_string();
+                        match (fmt_with(&b, al, fl, w, p), fmt_with(&s.as_str(), al, fl, w, p)) {
+                            (Some(got), Some(want)) => {
+                                if got != want {
+                                    rep.t3("C20", &format!("Display of {} with align={al} fill={fl} width={w:?} precision={p:?} gives {:?} but str gives {:?}", hex(b.as_bytes()), got, want));
+                                }
+                                hex(got.as_bytes())
+                            }
+                            _ => "bad-op".into(),
+                        }
+                    }
+                    _ => "bad-op".into(),
+                }
+            }
             ["clone", k] => match k.parse::<usize>() {
                 Ok(k) if k < st.len() => {
                     let b = st[k].clone();
